@@ -147,6 +147,15 @@ int main(void) {
     printf("]\n\n");
 
     /* method table, cross-checked by calling the function */
+    printf("def methodTableBytes : List (List UInt8 × Nat) := [");
+    for (int i = 0; methods[i]; i++) {
+        bstr *m = bstr_dup_c(methods[i]);
+        printf("%s([", i ? ", " : "");
+        for (size_t k = 0; k < strlen(methods[i]); k++) printf("%s%u", k ? "," : "", (unsigned char) methods[i][k]);
+        printf("], %d)", htp_convert_method_to_number(m));
+        bstr_free(m);
+    }
+    printf("]\n");
     printf("def methodTable : List (String × Nat) := [");
     for (int i = 0; methods[i]; i++) {
         bstr *m = bstr_dup_c(methods[i]);
